@@ -478,6 +478,13 @@ fn reason_from(s: &str) -> LostWorkerReason {
     }
 }
 
+/// The oracle's own reading of the statement of C07: a loss counts as a crash of the tasks running on the worker iff the
+/// worker was lost due to a failure - "not a stop, idle timeout or time limit". (Deliberately NOT `LostWorkerReason::is_failure`,
+/// which is code under test.)
+pub fn loss_is_failure(r: LostWorkerReason) -> bool {
+    matches!(r, LostWorkerReason::ConnectionLost | LostWorkerReason::HeartbeatLost)
+}
+
 pub fn reason_name(r: LostWorkerReason) -> &'static str {
     match r {
         LostWorkerReason::Stopped => "stopped",
@@ -496,7 +503,7 @@ pub fn event_json(p: &EventPayload) -> Value {
     match p {
         EventPayload::WorkerConnected(w, _) => json!({"k": "WorkerConnected", "w": w.as_num()}),
         EventPayload::WorkerLost(w, r) => {
-            json!({"k": "WorkerLost", "w": w.as_num(), "reason": reason_name(*r), "fail": r.is_failure()})
+            json!({"k": "WorkerLost", "w": w.as_num(), "reason": reason_name(*r), "fail": loss_is_failure(*r)})
         }
         EventPayload::WorkerOverviewReceived(_) => json!({"k": "Overview"}),
         EventPayload::Submit {
@@ -1459,7 +1466,7 @@ impl Cluster {
                 self.collect().await;
                 (
                     "Lose".into(),
-                    json!({"w": w, "reason": reason, "fail": reason_from(reason).is_failure(),
+                    json!({"w": w, "reason": reason, "fail": loss_is_failure(reason_from(reason)),
                            "was_stopped": was_stopped, "dropped_w2s": dropped_w2s, "via_stop": false}),
                     json!({}),
                 )
